@@ -32,8 +32,9 @@ func (node *tagForNode) Execute(ctx *ExecutionContext, writer TemplateWriter) (f
 	}
 
 	// Is it a loop in a loop?
-	if parentloop != nil {
-		loopInfo.Parentloop = parentloop.(*tagForLoopInformation)
+	if parentInfo, isLoopInfo := parentloop.(*tagForLoopInformation); isLoopInfo {
+		// (a template can bind the name forloop to something else)
+		loopInfo.Parentloop = parentInfo
 	}
 
 	// Register loopInfo in public context
